@@ -342,6 +342,32 @@ func typedStruct(t *rapid.T, sb *strings.Builder, s *gen.TypeSpec, c TypedCfg, d
 	}
 	if c.Unknown {
 		for rapid.IntRange(0, 4).Draw(t, "unknown") == 0 {
+			if len(fs) > 0 && rapid.IntRange(0, 2).Draw(t, "nearmiss") > 0 {
+				// a key one edit away from a field name (strict prefix, extension, last letter changed), with a value
+				// the field would accept: nothing may be stored for it unless Go's rules match it to a field
+				f := fs[rapid.IntRange(0, len(fs)-1).Draw(t, "nmfield")]
+				key, rs := f.name, []rune(f.name)
+				switch rapid.IntRange(0, 3).Draw(t, "nmkind") {
+				case 0, 1:
+					if len(rs) > 1 {
+						key = string(rs[:rapid.IntRange(1, len(rs)-1).Draw(t, "nmcut")])
+					} else {
+						key += "_"
+					}
+				case 2:
+					key += rapid.SampledFrom([]string{"x", "_", "0", key}).Draw(t, "nmext")
+				default:
+					if len(rs) > 0 {
+						key = string(rs[:len(rs)-1]) + "~"
+					}
+				}
+				var mt *gen.TypeSpec
+				if rapid.IntRange(0, 3).Draw(t, "nmtyped") > 0 {
+					mt = f.t
+				}
+				ms = append(ms, member{key, mt})
+				continue
+			}
 			ms = append(ms, member{rapid.SampledFrom([]string{"zz", "unknown", "", "Q", "a1", "é"}).Draw(t, "uk"), nil})
 		}
 	}
